@@ -41,3 +41,13 @@ theorem pow_binary_step {G : Type*} [Monoid G] (a : G) (k : ℕ) (bit : Bool) :
 #print axioms euclid_instance
 #print axioms sqrt_3mod4
 #print axioms pow_binary_step
+
+/-- L6b: for p = 3 (mod 4) and nonzero a, a^((3p-5)/4) * a^((p+1)/4) = 1: the INV=True exponent yields the inverse of the square root. -/
+theorem sqrt_inv_3mod4 (p : ℕ) [Fact p.Prime] (hp : p % 4 = 3) (a : ZMod p) (ha : a ≠ 0) :
+    a ^ ((p * 3 - 5) / 4) * a ^ ((p + 1) / 4) = 1 := by
+  have hfermat : a ^ (p - 1) = 1 := ZMod.pow_card_sub_one_eq_one ha
+  have hp3 : 3 ≤ p := by omega
+  have hk : (p * 3 - 5) / 4 + (p + 1) / 4 = p - 1 := by omega
+  rw [← pow_add, hk, hfermat]
+
+#print axioms sqrt_inv_3mod4
